@@ -9,7 +9,7 @@ CONSTANTS
   R = 4
   W = 0
   OOOCap = 2
-  Acts = {"NewAppender", "Append", "Commit", "Rollback", "Compact", "Reopen", "EvictSel", "EvictStale", "Delete"}
+  Acts = {"NewAppender", "Append", "Commit", "Rollback", "Compact", "Reopen", "EvictSel", "CompactStale", "Delete"}
   Apis = {"v1", "v2"}
   Rej = {FALSE}
   DelLo = {0}
